@@ -438,6 +438,16 @@ func MakeForeign(r *rng.R, opts ForeignOpts) *Foreign {
 		ovr("customXml/itemProps1.xml", "application/vnd.openxmlformats-officedocument.customXmlProperties+xml")
 		w.rel("customXml", "../customXml/item1.xml", false)
 	}
+	if !opts.Simple && r.Chance(1, 4) {
+		// a zero-length part is a legal part (an embedded object that was never filled, an empty data item)
+		w.feature("zero-length-part")
+		f.put("word/embeddings/oleObject1.bin", "")
+		if !addDefault["bin"] {
+			addDefault["bin"] = true
+			ct = append(ct, `<Default Extension="bin" ContentType="application/vnd.openxmlformats-officedocument.oleObject"/>`)
+		}
+		w.rel("oleObject", "embeddings/oleObject1.bin", false)
+	}
 	// media
 	nMedia := r.Range(0, 3)
 	mediaIDs := []string{}
